@@ -321,7 +321,8 @@ func Prop(c Case, x *h.Ctx) *h.Violation {
 	case "super":
 		if len(c.Nest) == 2 && 0 <= c.Nest[0] && c.Nest[0] < c.Nest[1] && c.Nest[1] <= len(readers) && noEmptyValues(c.Tables[c.Nest[0]:c.Nest[1]]) {
 			x.Label("nested-stack")
-			inner := sstables.NewSuperSSTableReader(append([]sstables.SSTableReaderI{}, readers[c.Nest[0]:c.Nest[1]]...), cmp)
+			part := append([]sstables.SSTableReaderI{}, readers[c.Nest[0]:c.Nest[1]]...)
+			inner := &truthfulMeta{SSTableReaderI: sstables.NewSuperSSTableReader(part, cmp), md: unionMeta(part)}
 			nested := append([]sstables.SSTableReaderI{}, readers[:c.Nest[0]]...)
 			nested = append(nested, inner)
 			readers = append(nested, readers[c.Nest[1]:]...)
@@ -510,4 +511,37 @@ func noEmptyValues(ts [][]tbl.KV) bool {
 		}
 	}
 	return true
+}
+
+// truthfulMeta gives the inner stack the metadata a table with the same content would have. The stacked reader's own
+// MetaData() is a loose aggregate (its comment calls the usefulness debatable; its MinKey is not the minimum), and a
+// reader that prunes tables by their key range - a legitimate optimisation for lists of tables, which is what the
+// property quantifies over - must not be reported because of it.
+type truthfulMeta struct {
+	sstables.SSTableReaderI
+	md *proto.MetaData
+}
+
+func (t *truthfulMeta) MetaData() *proto.MetaData { return t.md }
+
+func unionMeta(rs []sstables.SSTableReaderI) *proto.MetaData {
+	md := &proto.MetaData{Version: 1}
+	for _, r := range rs {
+		m := r.MetaData()
+		if m == nil || m.NumRecords == 0 {
+			continue
+		}
+		if md.NumRecords == 0 || bytes.Compare(m.MinKey, md.MinKey) < 0 {
+			md.MinKey = m.MinKey
+		}
+		if md.NumRecords == 0 || bytes.Compare(m.MaxKey, md.MaxKey) > 0 {
+			md.MaxKey = m.MaxKey
+		}
+		md.NumRecords += m.NumRecords
+		md.DataBytes += m.DataBytes
+		md.IndexBytes += m.IndexBytes
+		md.TotalBytes += m.TotalBytes
+		md.Version = m.Version
+	}
+	return md
 }
